@@ -58,4 +58,19 @@ CHECKS = {
         "(lengths near SIZE_MAX, non-minimal, 0x80/0xFF); checked: no sanitizer report, consumed <= input, accept iff the strict model accepts, "
         "Enc(Dec(x)) = x for canonical formats, Dec(Enc(v)) = v.",
    note="Canonicality asserted only for formats their headers call DER/canonical; legal non-minimal extended APDU codings are tallied, not judged."),
+ "C15": dict(level="exploration",
+   technique="LD_PRELOAD allocation interposer snapshotting released blocks + forked twin-run differential + secret needle scan on the Release build",
+   text="For 45 secret-taking high-level calls (belt, brng, botp, bign, bels, bpki) every block bee2 frees (or abandons in a moving realloc) "
+        "is snapshotted at release; two forked twins that differ only in the secret must release byte-identical blocks (a wiped block depends "
+        "only on addresses and the wipe counter), and no block may contain an 8-octet window of the secret or its expanded key. Exits covered: "
+        "success, failed authentication, every error exit reachable by corrupting one input (bad private/public key, bad token, short token) "
+        "and every allocation-failure exit.",
+   note="Heap blocks only; gcc -O3 Release build; bake RunA/RunB, g12s/dstu/pfok and btok are not yet in the call table."),
+ "C09": dict(level="fault_enumeration",
+   technique="allocation-failure enumeration through an LD_PRELOAD interposer in forked children + header-transcribed argument-contract table under ASan",
+   text="Fault half: for every call in the table the k-th allocation issued from libbee2 fails for k = 1, 2, ... until the call completes "
+        "without reaching the fault; each faulted call must return an error, not crash (observed in a forked child) and leave no live block. "
+        "Argument half (c09_args, when present): one row per err_t function transcribed from the \\expect{ERR_...} clauses; every documented "
+        "domain violation must yield the documented error class without crash, and a failed authenticated unwrap must not leave plaintext/key in dest.",
+   note="Faults are injected only at malloc/calloc/realloc called from libbee2; most high-level calls allocate exactly one blob."),
 }
